@@ -160,7 +160,10 @@ def run(pid, tier, seed):
     pd = programs.ProgramDir("mtv_c13_")
     # traced types are disjoint from the source-annotation pool, so "kept the source annotation" and "received the
     # traced type" can be told apart by object identity
-    traced_types = [(float, ("cls", "13")), (bytes, ("cls", "14")), (typing.List[str], ("list", ("cls", "0"))), (type(None), ("cls", "9"))]
+    # ... and include a class whose class object is falsy (`if traced_type:` is not `if traced_type is not None:`)
+    from .. import fixture_classes as fx
+    traced_types = [(float, ("cls", "13")), (bytes, ("cls", "14")), (typing.List[str], ("list", ("cls", "0"))),
+                    (fx.Falsy, ("cls", str(tbl.of(fx.Falsy)))), (type(None), ("cls", "9"))]
     reqs, meta = [], []
     cli_jobs = []
     try:
@@ -179,7 +182,7 @@ def run(pid, tier, seed):
                     traced = {n: chk.rng.choice(traced_types) for n in names if chk.rng.random() < 0.55}
                     combo = chk.rng.choice(RET_COMBOS)
                     ret = chk.rng.choice(traced_types) if combo in ("return", "yield+return") else ((type(None), ("cls", "9")) if combo == "yield+none" else None)
-                    yld = chk.rng.choice(traced_types[:3]) if combo.startswith("yield") else None
+                    yld = chk.rng.choice(traced_types[:4]) if combo.startswith("yield") else None
                     trace = CallTrace(func, {n: t[0] for n, t in traced.items()}, ret[0] if ret else None, yld[0] if yld else None)
                     for sname, sval in strategies:
                         chk.evaluations += 1
@@ -250,7 +253,7 @@ def run(pid, tier, seed):
                 # a history: the same generator once returning a value and once running off its end (NoneType return); the
                 # traced return is Generator[Y, None, Optional[R]] (both observed returns), for an unannotated return in
                 # every mode and for an annotated one under `ignore`
-                R, Y = chk.rng.choice(traced_types[:3]), chk.rng.choice(traced_types[:3])
+                R, Y = chk.rng.choice(traced_types[:4]), chk.rng.choice(traced_types[:4])
                 hist = [CallTrace(func, {}, R[0], Y[0]), CallTrace(func, {}, type(None), Y[0])]
                 chk.rng.shuffle(hist)
                 rsrc = sig.return_annotation
@@ -277,6 +280,8 @@ def run(pid, tier, seed):
         # the real CLI with each flag: presence / absence of annotations per position agrees with the API
         cli_check(chk, pd, cli_jobs)
         kept_text(chk, pd, seed)
+        from .. import keptmix
+        keptmix.run(chk, pd, seed, "kept-and-traced")
         chk.sample({"annotations": ANNOS, "return_combinations": RET_COMBOS, "strategies": [s for s, _ in strategies]})
     finally:
         pd.close()
